@@ -44,7 +44,23 @@ def make_gateway(group, kind, execmodel, python=None, tag="g"):
     if kind == "via":
         m = group.makegateway(f"popen//python={py}//id={tag}m" if python else f"popen//id={tag}m")
         return group.makegateway(f"popen//via={m.id}//execmodel={execmodel}//id={tag}" + (f"//python={py}" if python else ""))
+    if kind == "ssh":  # needs an `ssh` on PATH (the checks put a stand-in there that hands the command line to /bin/sh, as sshd does)
+        return group.makegateway(f"ssh=fakehost//python={py}//execmodel={execmodel}//id={tag}")
+    if kind == "vagrant":
+        return group.makegateway(f"vagrant_ssh=default//python={py}//execmodel={execmodel}//id={tag}")
     raise ValueError(kind)
+
+
+def make_remote_shell_standins(directory):
+    """`ssh` and `vagrant` executables for a sandbox without an ssh server: like sshd they pass the last argument (the remote command
+    line) to the login shell, so quoting and word splitting of `python=...` behave as on a real remote host"""
+    os.makedirs(directory, exist_ok=True)
+    for name in ("ssh", "vagrant"):
+        path = os.path.join(directory, name)
+        with open(path, "w") as f:
+            f.write("#!/bin/sh\nfor last; do :; done\nexec /bin/sh -c \"$last\"\n")
+        os.chmod(path, 0o755)
+    return directory
 
 
 def remote_function(channel, a, b=None, c=()):
